@@ -116,6 +116,26 @@ class World:
             for i, r in enumerate(self.reps):
                 assert (p == r) == (i == s), f"pyproj equality is not an equivalence on the alphabet at {n[:20]}"
 
+    def bulk_codes(self, n: int, rng) -> List[int]:
+        """n further distinct EPSG codes (projected systems), cheap to construct, for cache-capacity histories.
+        Their systems are never compared with anything, so each gets a system number of its own."""
+        codes = sorted(int(c) for c in pyproj.get_codes("EPSG", "PROJECTED_CRS") if c.isdigit())
+        codes = [c for c in codes if c not in self.einfo]
+        start = rng.randrange(0, max(1, len(codes) - n))
+        out = []
+        for c in codes[start:] + codes[:start]:
+            if len(out) >= n:
+                break
+            try:
+                p = pyproj.CRS.from_epsg(c)
+            except Exception:  # pylint: disable=broad-except
+                continue
+            if p.srs != f"EPSG:{c}":
+                continue
+            self.einfo[c] = {"sys": 100000 + c, "srs": f"EPSG:{c}", "wkt": "#w", "epsg": c}
+            out.append(c)
+        return out
+
     # ---- Lean encoding
     def lean_tables(self) -> Tuple[str, str]:
         def ent(key, d):
